@@ -656,7 +656,10 @@ def _judge_testset(cfg, obs, ctx, case):
         got_counts = [int(c[i]) for c in counts]
         if got_counts != want_counts:
             ctx.fail(r + '|left-out-counts', case, 'resample %d: reported %r, left out %r' % (i, got_counts, want_counts))
-        evaluable = (rdm_idx is None or len(test_r) >= 1) and (pattern_idx is None or len(test_c) >= 3)
+        # too small to evaluate: fewer than 3 left-out conditions, no left-out RDM, or a training sample
+        # with fewer than 3 distinct conditions (a single distinct dissimilarity: nothing can be fitted)
+        evaluable = (rdm_idx is None or len(test_r) >= 1) and \
+            (pattern_idx is None or (len(test_c) >= 3 and len(set(int(v) for v in pattern_idx)) >= 3))
         if not evaluable:
             if not all(math.isnan(x) for x in ev[i]):
                 ctx.fail(r + '|small-testset-not-nan', case, 'resample %d leaves out %d RDMs / %d conditions but evaluations %r'
@@ -761,10 +764,24 @@ def run_shard(shard, ctx):
     else:
         bound, mx = (1 if ctx.tier == 'quick' else 2), 4000
     first = True
-    for env, obs in choice.explore(lambda e: execute(cfg, e, ctx.seed), bound=bound, stats=stats, max_exec=mx,
-                                   root=shard['root']):
+
+    def safe(e):
+        # a library exception under one particular draw history is a finding with that history as its
+        # replayable case, not an anonymous shard failure
+        try:
+            return execute(cfg, e, ctx.seed)
+        except HarnessError:
+            raise
+        except Exception as ex:     # noqa
+            import traceback
+            return {'raised': ex, 'where': traceback.format_exc().strip().splitlines()[-3:]}
+    for env, obs in choice.explore(safe, bound=bound, stats=stats, max_exec=mx, root=shard['root']):
         case = {'cfg': cfg, 'choices': env.choices}
         ctx.case(case, nontrivial=env.deviations > 0 or r in ('eval_fixed',))
+        if 'raised' in obs:
+            ctx.fail('%s|raises:%s' % (r, type(obs['raised']).__name__), case,
+                     '%s %s' % (obs['raised'], ' / '.join(x.strip() for x in obs['where'])))
+            continue
         with ctx.guard(r + '|judge', case):
             judge(cfg, obs, ctx, case)
         ctx.outcome(tuple(np.round(np.nan_to_num(_evals(obs['res']), nan=-9).ravel(), 9)[:12]))
